@@ -19,9 +19,16 @@ Clauses of the property and where they are proved:
     `unexpired_survives_begin`, `on_witnesses`.
     Before commit f2249cacd the clause was false of the code (stale expiration-queue entries):
     `disappears_only_if_false_before_fix`, `verdict_on_witness_before_fix` (about `runPreFix`).
- 4. an expired attribute is gone after the next block begins → `expired_gone_after_begin`
+ 4. an expired attribute is gone after the next block begins → FALSE of the code when more than
+    `attribute.MaxExpiredAttributionCount` = 100 000 (`sweep_cap_is_100000`) attributes are
+    expired when a block begins: the sweep stops after 100 000 deletions
+    (`expired_survives_above_cap`, `expired_survives_begin_block_in_a_history`,
+    `capped_sweep_witness`); what holds: `expired_gone_after_begin_partial` (up to the cap),
+    `capped_sweep_removes_min` (exactly min(cap, expired) expired attributes go, in every case),
+    `sweep_removes_min` (the same for `Keeper.DeleteExpiredAttributes` with any limit)
  5. name deletion removes exactly the attributes under the name → `deleteName_purges_exactly`
- 6. the checker run on the implementation is these conclusions → `verdict_ok`
+ 6. the checker run on the implementation is these conclusions → `verdict_ok`,
+    `verdict_above_cap`, `verdictBulk_ok` (a transaction of many adds, op line `bulk`)
  7. names spelt non-normalised (mixed case, white space; `SOp` / `stepS` / `runS`): an accepted
     message does what the message with the normalised name does (`stepS_refines`,
     `runS_reachable`), so every clause holds with "the owner of the NORMALISED name"
@@ -30,13 +37,14 @@ Clauses of the property and where they are proved:
 -/
 import PvProofs.Lemmas.AttrStep
 import PvProofs.Lemmas.AttrExact
+import PvProofs.Lemmas.AttrBulk
 
 set_option linter.unusedSimpArgs false
 set_option linter.unusedVariables false
 
 namespace PvProofs.C16
 open PvModel.Attr PvProofs.Lemmas.AttrStore PvProofs.Lemmas.AttrInv PvProofs.Lemmas.AttrSweep
-  PvProofs.Lemmas.AttrStep PvProofs.Lemmas.AttrExact
+  PvProofs.Lemmas.AttrStep PvProofs.Lemmas.AttrExact PvProofs.Lemmas.AttrCap PvProofs.Lemmas.AttrBulk
 
 /-! ## Invariants of every reachable state -/
 
@@ -165,7 +173,7 @@ theorem writes_are_what_the_owner_signed {s s' : State} {op : Op} (hi : Inv s) (
     obtain ⟨_, rfl⟩ := deleteName_ok h
     left; exact ((foldl_purgeAcct_recs name _ _ r').mp hr').1
   | beginBlock t =>
-    rw [begin_ok h] at hr'
+    obtain ⟨l, _, rfl⟩ := begin_fold h
     have hi0 : Inv { s with now := t } := ⟨hi.keys, hi.cntGe, hi.bound, hi.queueComplete⟩
     left; exact ((foldl_expireOne_recs _ _ hi0 r').mp hr').1
 
@@ -319,15 +327,14 @@ theorem sweep_disappears_only_if {s s' : State} {t : Nat} (hi : Inv s)
   unfold disappearancesJustified
   simp only [List.all_eq_true, Bool.or_eq_true, hasKey_iff]
   intro r hr
-  rw [begin_ok h]
+  obtain ⟨l, hl, rfl⟩ := begin_fold h
   have hi0 : Inv { s with now := t } := ⟨hi.keys, hi.cntGe, hi.bound, hi.queueComplete⟩
-  by_cases hx : ∀ q ∈ s.queue.filter (fun q => decide (q.1 < t)), ¬ (r.key = q.2 ∧ r.exp = some q.1)
+  by_cases hx : ∀ q ∈ l, ¬ (r.key = q.2 ∧ r.exp = some q.1)
   · left; exact ⟨r, (foldl_expireOne_recs _ _ hi0 r).mpr ⟨hr, hx⟩, rfl⟩
   · right
     simp only [Classical.not_forall, Classical.not_imp, Decidable.not_not] at hx
     obtain ⟨q, hq, _, hx0⟩ := hx
-    obtain ⟨_, hq2⟩ := List.mem_filter.mp hq
-    simp only [decide_eq_true_eq] at hq2
+    have hq2 := (hl q hq).2
     simp [justified, hx0, hq2]
 
 theorem disappears_only_if_inv {s s' : State} {op : Op} (hi : Inv s) (h : step s op = .ok s') :
@@ -345,49 +352,123 @@ theorem disappears_only_if (s0 : State) (h0 : Init s0) (ops : List Op) (op : Op)
     (h : step (run s0 ops) op = .ok s') : disappearancesJustified (run s0 ops) op s' = true :=
   disappears_only_if_inv (invariants_hold s0 h0 ops) h
 
-/-! ## Clause 4 — expired attributes are gone after the next block begins -/
+/-! ## Clause 4 — expired attributes are gone after the next block begins: up to the sweep's cap
 
-/-- After `BeginBlocker` at time `t`, in any reachable state, no stored attribute has an
-expiration before `t` (the 100 000-per-block cap of the Go sweep is not modelled). -/
-theorem expired_gone_after_begin_inv {s s' : State} {t : Nat} (hi : Inv s)
-    (h : step s (.beginBlock t) = .ok s') : expiredGone t s' = true := by
-  unfold expiredGone
-  simp only [List.all_eq_true]
-  intro r hr
-  rw [begin_ok h] at hr
-  have hi0 : Inv { s with now := t } := ⟨hi.keys, hi.cntGe, hi.bound, hi.queueComplete⟩
-  obtain ⟨hr1, hr2⟩ := (foldl_expireOne_recs _ _ hi0 r).mp hr
-  cases he : r.exp with
-  | none => rfl
-  | some e =>
-    simp only [decide_eq_true_eq]
-    by_cases hlt : e < t
-    · exfalso
-      have hq : (e, r.key) ∈ s.queue := hi.queueComplete r hr1 e he
-      exact hr2 (e, r.key) (List.mem_filter.mpr ⟨hq, by simpa using hlt⟩) ⟨rfl, he⟩
-    · omega
+`BeginBlocker` calls `DeleteExpiredAttributes(ctx, MaxExpiredAttributionCount)`; the loop stops
+after that many deletions.  So the clause "gone after the next block begins" is a theorem only
+while at most 100 000 attributes are expired when the block begins; above that exactly 100 000
+of them go per block (in store-key order: earliest expiration first) and the rest stays readable
+until later blocks have worked the backlog off. -/
 
-theorem expired_gone_after_begin (s0 : State) (h0 : Init s0) (ops : List Op) (t : Nat) (s' : State)
-    (h : step (run s0 ops) (.beginBlock t) = .ok s') (r : Attribute) (hr : r ∈ s'.recs) (e : Nat)
-    (he : r.exp = some e) : t ≤ e := by
-  have := expired_gone_after_begin_inv (invariants_hold s0 h0 ops) h
+/-- The cap of the unchanged code (x/attribute/abci.go:12). -/
+theorem sweep_cap_is_100000 : maxExpiredAttributionCount = 100000 := rfl
+
+/-- `Keeper.DeleteExpiredAttributes(ctx, limit)` at block time `t`, from any state that satisfies
+the store invariants, whatever the order in which the store returns the due queue entries:
+the number of expired attributes drops by exactly `min(limit, expired)`; without a limit
+(`limit = 0`) none is left. -/
+theorem sweep_removes_min {s : State} (hi : Inv s) (t limit : Nat) :
+    expiredCount (deleteExpiredAttributes { s with now := t } limit) t =
+      if limit = 0 then 0 else expiredCount s t - limit :=
+  sweep_expiredCount hi t limit
+
+/-- What every begin-block sweep does, with or without a backlog: exactly
+`min(100 000, expired)` expired attributes go. -/
+theorem capped_sweep_removes_min {s s' : State} {t : Nat} (hi : Inv s)
+    (h : step s (.beginBlock t) = .ok s') :
+    expiredCount s' t = expiredCount s t - maxExpiredAttributionCount := by
+  rw [begin_ok h, sweep_expiredCount hi]
+  simp [maxExpiredAttributionCount]
+
+/-- PARTIAL form of clause 4.  Full statement (FALSE of the code, see
+`expired_survives_above_cap`): "after `BeginBlocker` at time `t` no stored attribute has an
+expiration before `t`".  It holds whenever at most `MaxExpiredAttributionCount` = 100 000
+attributes are expired when the block begins.  Missing: the case of more than 100 000
+simultaneously expired attributes, where the sweep stops at its cap. -/
+theorem expired_gone_after_begin_partial_inv {s s' : State} {t : Nat} (hi : Inv s)
+    (h : step s (.beginBlock t) = .ok s') (hcap : expiredCount s t ≤ maxExpiredAttributionCount) :
+    expiredGone t s' = true := by
+  rw [expiredGone_iff, capped_sweep_removes_min hi h]
+  omega
+
+theorem expired_gone_after_begin_partial (s0 : State) (h0 : Init s0) (ops : List Op) (t : Nat) (s' : State)
+    (h : step (run s0 ops) (.beginBlock t) = .ok s')
+    (hcap : expiredCount (run s0 ops) t ≤ maxExpiredAttributionCount)
+    (r : Attribute) (hr : r ∈ s'.recs) (e : Nat) (he : r.exp = some e) : t ≤ e := by
+  have := expired_gone_after_begin_partial_inv (invariants_hold s0 h0 ops) h hcap
   unfold expiredGone at this
   simp only [List.all_eq_true] at this
   have h2 := this r hr
   rw [he] at h2
   simpa using h2
 
+example :
+    let s0 : State := { now := 100, accts := ["A"], names := [("kyc.vf", "A")] }
+    let ops : List Op := [.add "A" ⟨"B", "kyc.vf", "1", .string, some 105⟩, .add "A" ⟨"B", "kyc.vf", "2", .int, some 106⟩]
+    Init s0 ∧ expiredCount (run s0 ops) 111 = 2 ∧ expiredCount (run s0 ops) 111 ≤ maxExpiredAttributionCount := by
+  decide
+
+/-- Clause 4 is FALSE of the code above the cap: from every state (that satisfies the store
+invariants) with more than 100 000 expired attributes, expired attributes are still stored
+after the block has begun — exactly the surplus. -/
+theorem expired_survives_above_cap {s s' : State} {t : Nat} (hi : Inv s)
+    (h : step s (.beginBlock t) = .ok s') (hcap : maxExpiredAttributionCount < expiredCount s t) :
+    expiredGone t s' = false ∧ expiredCount s' t = expiredCount s t - maxExpiredAttributionCount := by
+  have hc := capped_sweep_removes_min hi h
+  refine ⟨?_, hc⟩
+  cases hg : expiredGone t s' with
+  | false => rfl
+  | true =>
+    have := (expiredGone_iff t s').mp hg
+    omega
+
+/-- Such states are reachable: `n` add messages by the name's owner, with `n` different values
+and one expiration, store `n` attributes that are all expired once the block time has passed it. -/
+theorem above_cap_reachable (n : Nat) :
+    let s0 : State := { now := 100, accts := ["A"], names := [("kyc.vf", "A")] }
+    Init s0 ∧ expiredCount (run s0 (manyAdds "A" "B" "kyc.vf" 110 n)) 111 = n := by
+  refine ⟨by decide, ?_⟩
+  exact manyAdds_expiredCount (s0 := { now := 100, accts := ["A"], names := [("kyc.vf", "A")] })
+    (sg := "A") (addr := "B") (name := "kyc.vf") (e := 110) (t := 111)
+    (by decide) (by decide) (by decide) (by decide) (by decide) (by decide) (by decide) n
+
+/-- The negation of clause 4 on a history: 100 001 adds with expiration 110, then a block at
+111 — an attribute whose stored expiration has passed is still stored after the block began. -/
+theorem expired_survives_begin_block_in_a_history :
+    ∃ (s0 : State) (ops : List Op) (t : Nat) (s' : State), Init s0 ∧
+      step (run s0 ops) (.beginBlock t) = .ok s' ∧ expiredGone t s' = false ∧ expiredCount s' t = 1 := by
+  refine ⟨{ now := 100, accts := ["A"], names := [("kyc.vf", "A")] },
+    manyAdds "A" "B" "kyc.vf" 110 100001, 111, _, by decide, rfl, ?_⟩
+  have hr := (above_cap_reachable 100001).2
+  have hi := invariants_hold _ (above_cap_reachable 100001).1 (manyAdds "A" "B" "kyc.vf" 110 100001)
+  have := expired_survives_above_cap (t := 111) hi rfl (by rw [hr]; decide)
+  rw [hr] at this
+  exact this
+
+/-- The mechanism on a small instance (`Keeper.DeleteExpiredAttributes` with limit 2 and three
+expired attributes): the two with the earliest expirations go, the third stays although its
+stored expiration has passed. -/
+theorem capped_sweep_witness :
+    let s0 : State := { now := 100, accts := ["A"], names := [("kyc.vf", "A")] }
+    let s := run s0 [.add "A" ⟨"B", "kyc.vf", "1", .string, some 105⟩, .add "A" ⟨"B", "kyc.vf", "2", .string, some 107⟩,
+      .add "A" ⟨"B", "kyc.vf", "3", .string, some 106⟩]
+    let s' := deleteExpiredAttributes { s with now := 111 } 2
+    s'.recs = [⟨"B", "kyc.vf", "2", .string, some 107⟩] ∧ expiredGone 111 s' = false ∧
+      sweepResult 2 s 111 s' = .capped ∧
+      (deleteExpiredAttributes { s with now := 111 } 3).recs = [] ∧
+      (deleteExpiredAttributes { s with now := 111 } 0).recs = [] := by
+  decide
+
 /-- Expiry is not early either: an attribute whose stored expiration has not passed (or that
 has none) survives the sweep, whatever is in the queue. -/
 theorem unexpired_survives_begin {s s' : State} {t : Nat} (hi : Inv s)
     (h : step s (.beginBlock t) = .ok s') (r : Attribute) (hr : r ∈ s.recs)
     (hne : ∀ e, r.exp = some e → t ≤ e) : r ∈ s'.recs := by
-  rw [begin_ok h]
+  obtain ⟨l, hl, rfl⟩ := begin_fold h
   have hi0 : Inv { s with now := t } := ⟨hi.keys, hi.cntGe, hi.bound, hi.queueComplete⟩
   refine (foldl_expireOne_recs _ _ hi0 r).mpr ⟨hr, ?_⟩
   rintro q hq ⟨_, hx⟩
-  obtain ⟨_, hq2⟩ := List.mem_filter.mp hq
-  simp only [decide_eq_true_eq] at hq2
+  have hq2 := (hl q hq).2
   have := hne q.1 hx
   omega
 
@@ -446,9 +527,15 @@ theorem updateExp_stores {s s' : State} {sg addr name v : String} {e : Option Na
 
 /-! ## The checker is the conjunction of the conclusions above -/
 
+theorem sweepResult_ok {limit : Nat} {s s' : State} {t : Nat} (h : expiredGone t s' = true) :
+    sweepResult limit s t s' = .ok := by
+  simp [sweepResult, h]
+
 /-- On every transition of the model from a reachable state the checker that `bin/check` runs
-on the implementation's dumps answers `ok`. -/
-theorem verdict_ok {s s' : State} {op : Op} (hi : Inv s) (h : step s op = .ok s') :
+on the implementation's dumps answers `ok` — for a block that begins with more than 100 000
+expired attributes see `verdict_above_cap`. -/
+theorem verdict_ok {s s' : State} {op : Op} (hi : Inv s) (h : step s op = .ok s')
+    (hcap : ∀ t, op = .beginBlock t → expiredCount s t ≤ maxExpiredAttributionCount) :
     verdict s op true s' = "ok" := by
   have h1 := only_name_owner_writes_inv hi h
   have h2 := lookupComplete_of_inv (step_inv hi h)
@@ -460,11 +547,36 @@ theorem verdict_ok {s s' : State} {op : Op} (hi : Inv s) (h : step s op = .ok s'
     unfold disappearancesJustified at h4
     simp only [List.all_eq_true] at h4
     simp [h4 r hr]
-  unfold verdict
+  unfold verdict verdictCap
   simp only [h1, h2, h3, h5, Bool.not_true, Bool.false_eq_true, if_false]
   cases op with
-  | beginBlock t => simp [expired_gone_after_begin_inv hi h]
+  | beginBlock t =>
+    simp only [sweepResult_ok (expired_gone_after_begin_partial_inv hi h (hcap t rfl))]
   | _ => rfl
+
+/-- On a block that begins with more than 100 000 expired attributes the checker reports the
+model's own transition, under the narrow clause of the open finding `C16-sweep-cap`: the
+property's "gone after the next block begins" is not what the code does there. -/
+theorem verdict_above_cap {s s' : State} {t : Nat} (hi : Inv s) (h : step s (.beginBlock t) = .ok s')
+    (hcap : maxExpiredAttributionCount < expiredCount s t) :
+    verdict s (.beginBlock t) true s' = "fail:expired_survives_begin_block:more_expired_than_the_sweep_cap" := by
+  have h1 := only_name_owner_writes_inv hi h
+  have h2 := lookupComplete_of_inv (step_inv hi h)
+  have h3 := writes_are_what_the_owner_signed hi h
+  have h4 := disappears_only_if_inv hi h
+  have h5 : s.recs.find? (fun r => !(hasKey s' r.key || justified s (.beginBlock t) r)) = none := by
+    rw [List.find?_eq_none]
+    intro r hr
+    unfold disappearancesJustified at h4
+    simp only [List.all_eq_true] at h4
+    simp [h4 r hr]
+  obtain ⟨hg, hc⟩ := expired_survives_above_cap hi h hcap
+  have hne : maxExpiredAttributionCount ≠ 0 := by decide
+  have hle : expiredCount s' t + maxExpiredAttributionCount ≤ expiredCount s t := by omega
+  have hr : sweepResult maxExpiredAttributionCount s t s' = .capped := by
+    simp [sweepResult, hg, hne, hcap, hle]
+  unfold verdict verdictCap
+  simp only [h1, h2, h3, h5, Bool.not_true, Bool.false_eq_true, if_false, hr]
 
 /-- BEFORE commit f2249cacd: on the re-add witness the checker named the narrow clause that
 was recorded (now `fixed`) in `known_findings.json`. -/
@@ -587,25 +699,78 @@ theorem only_owner_of_normalised_name_writes (s0 : State) (h0 : Init s0) (xs : L
 /-- Clauses 2-4 for arbitrary spellings, all histories: after every accepted message the lookup
 is complete, every new record is what the owner of the normalised name signed, every record
 that is gone was deleted by the owner of its (normalised) name / with its name / by its stored
-expiration, and after a block begins nothing expired is left. -/
+expiration, and after a block begins nothing expired is left (unless more than 100 000 attributes
+were expired when it began). -/
 theorem spelled_history_satisfies_property (s0 : State) (h0 : Init s0) (xs : List SOp) (x : SOp)
     (s' : State) (h : stepS (runS s0 xs) x = .ok s') :
     lookupComplete s' = true ∧ appearancesJustified (runS s0 xs) x.op s' = true ∧
       disappearancesJustified (runS s0 xs) x.op s' = true ∧
-      (∀ t, x.op = .beginBlock t → expiredGone t s' = true) := by
+      (∀ t, x.op = .beginBlock t → expiredCount (runS s0 xs) t ≤ maxExpiredAttributionCount →
+        expiredGone t s' = true) := by
   have hi := invariants_hold_spelled s0 h0 xs
   have hs := stepS_refines h
   refine ⟨lookupComplete_of_inv (step_inv hi hs), writes_are_what_the_owner_signed hi hs,
     disappears_only_if_inv hi hs, ?_⟩
-  intro t ht
+  intro t ht hcap
   rw [ht] at hs
-  exact expired_gone_after_begin_inv hi hs
+  exact expired_gone_after_begin_partial_inv hi hs hcap
 
 /-- The checker (which judges the message by its normalised name) answers `ok` on every
 transition of the model, whatever the spelling. -/
-theorem verdict_ok_spelled {s s' : State} {x : SOp} (hi : Inv s) (h : stepS s x = .ok s') :
+theorem verdict_ok_spelled {s s' : State} {x : SOp} (hi : Inv s) (h : stepS s x = .ok s')
+    (hcap : ∀ t, x.op = .beginBlock t → expiredCount s t ≤ maxExpiredAttributionCount) :
     verdict s x.op true s' = "ok" :=
-  verdict_ok hi (stepS_refines h)
+  verdict_ok hi (stepS_refines h) hcap
+
+/-- A transaction of add messages (op line `bulk`: one signer, one spelling of the name, many
+values) that the model accepts is a chain of accepted adds … -/
+theorem stepAll_adds {sp : Spelling} {sg : String} : ∀ {attrs : List Attribute} {s s' : State},
+    stepAll s (attrs.map fun a => ⟨sp, .add sg a⟩) = .ok s' → AddChain sg s attrs s' := by
+  intro attrs
+  induction attrs with
+  | nil =>
+    intro s s' h
+    simp only [List.map_nil, stepAll] at h
+    injection h with h
+    rw [← h]; exact AddChain.nil s
+  | cons a rest ih =>
+    intro s s' h
+    simp only [List.map_cons, stepAll] at h
+    cases hx : stepS s ⟨sp, .add sg a⟩ with
+    | error e => rw [hx] at h; cases h
+    | ok s1 =>
+      rw [hx] at h
+      exact AddChain.cons (stepS_refines hx) (ih h)
+
+/-- … and the checker of the `bulk` line (`verdictBulk`: every message signed by the owner of
+its name, lookup complete, every new record one of the transaction, nothing gone) answers `ok`
+on it. -/
+theorem verdictBulk_ok {sp : Spelling} {sg : String} {attrs : List Attribute} {s s' : State} (hi : Inv s)
+    (h : stepAll s (attrs.map fun a => ⟨sp, .add sg a⟩) = .ok s') :
+    verdictBulk s sg attrs true s' = "ok" := by
+  obtain ⟨h1, h2, h3, h4, _⟩ := addChain_facts (stepAll_adds h) hi
+  have e1 : attrs.all (fun a => resolvesTo s a.name sg) = true := by
+    rw [List.all_eq_true]; exact h1
+  have e2 := lookupComplete_of_inv h2
+  have e3 : s'.recs.all (fun r' => s.recs.contains r' || attrs.contains r') = true := by
+    rw [List.all_eq_true]
+    intro r' hr'
+    rcases h3 r' hr' with e | e
+    · simp [e]
+    · simp [e]
+  have e4 : s.recs.all (fun r => hasKey s' r.key) = true := by
+    rw [List.all_eq_true]
+    intro r hr
+    rw [hasKey_iff]
+    exact h4 r hr
+  unfold verdictBulk
+  simp only [e1, e2, e3, e4, Bool.not_true, Bool.false_eq_true, if_false]
+
+example :
+    let s0 : State := { now := 100, accts := ["A"], names := [("kyc.vf", "A")] }
+    let attrs : List Attribute := [⟨"B", "kyc.vf", "1", .int, some 105⟩, ⟨"B", "kyc.vf", "2", .int, some 105⟩]
+    ∃ s', stepAll s0 (attrs.map fun a => ⟨{}, .add "A" a⟩) = .ok s' ∧ s'.recs.length = 2 :=
+  ⟨_, rfl, by decide⟩
 
 /-- The error class a message is refused with (`none` = accepted). -/
 def refusal (r : Except Err State) : Option Err :=
